@@ -10,8 +10,8 @@
 //   dev    name | file (FILE*) | stream (std::ifstream)
 //   dst    rgb8 | rgba8 | gray8 | gray1 | -
 //   x0 y0 dw dh  image_read_settings top_left / dim (all 0 = default)
-// hashA / hashB: FNV-1a of the destination pixels when the destination storage was pre-filled with 0xBE / 0x41
-//   (they differ iff the reader returned pixels it never wrote).
+// hashA / hashB: FNV-1a of the destination pixels of two reads; for `view` the caller's view is pre-filled with 0xBE / 0x41
+//   (the hashes differ iff the reader left pixels unwritten); images created by read_image are zero-initialised by GIL.
 // After an `ok` the same read is repeated on the file extended by 4096 x 0x00 and by 4096 x 0xFF; the observation
 // gets ` ext=same` if both give the same observation as the unextended file, else ` ext=differs`
 //   (differs: the reader consumed bytes beyond the end of the file as data).
@@ -27,6 +27,7 @@
 #endif
 #include "harness.hpp"
 #include <fstream>
+#include <map>
 #include <new>
 #include <unistd.h>
 #include <fcntl.h>
@@ -39,12 +40,13 @@ namespace gil = boost::gil;
 extern "C" const char* __asan_default_options() {
     return "detect_leaks=0:handle_abort=1:abort_on_error=0:exitcode=86:redzone=2048:max_redzone=2048:"
            "allocator_may_return_null=1:detect_stack_use_after_return=0:malloc_fill_byte=190:max_malloc_fill_size=2097152:"
-           "symbolize=1:fast_unwind_on_fatal=0";
+           "symbolize=0:fast_unwind_on_fatal=0";
 }
-extern "C" const char* __ubsan_default_options() { return "print_stacktrace=1:halt_on_error=1:exitcode=87"; }
+extern "C" const char* __ubsan_default_options() { return "print_stacktrace=1:halt_on_error=1:exitcode=87:symbolize=0"; }
 
 // every single allocation above this many bytes fails with std::bad_alloc (the model has the same rule)
-static const std::size_t ALLOC_LIMIT = std::size_t(1) << 20;
+static const std::size_t ALLOC_LIMIT = std::size_t(1) << 16;
+static const long SCAN_ROW_LIMIT = 65536;     // a scanline iteration over more rows than this is cut off (observation err:big)
 void* operator new(std::size_t n) { if (n > ALLOC_LIMIT) throw std::bad_alloc(); void* p = std::malloc(n ? n : 1); if (!p) throw std::bad_alloc(); return p; }
 void* operator new[](std::size_t n) { return operator new(n); }
 void operator delete(void* p) noexcept { std::free(p); }
@@ -63,7 +65,7 @@ template <typename T> struct fill_alloc {
     template <typename U> bool operator!=(fill_alloc<U> const&) const { return false; }
 };
 
-struct fnv { uint64_t h = 1469598103934665603ull; void add(unsigned char c) { h ^= c; h *= 1099511628211ull; } };
+struct fnv { uint64_t h = 14695981039346656037ull; void add(unsigned char c) { h ^= c; h *= 1099511628211ull; } };
 static std::string hex64(uint64_t v) { char b[24]; std::snprintf(b, sizeof b, "%016llx", (unsigned long long)v); return b; }
 
 template <typename View> static uint64_t hash_view(View const& v) {
@@ -116,7 +118,9 @@ template <typename Tag, typename Pixel> static std::string do_pixels(Op const& o
     for (int pass = 0; pass < 2; ++pass) {
         g_fill = pass ? 0x41 : 0xBE;
         image_t img;
-        if (o.entry == "view") { img.recreate(o.vw, o.vh); }
+        if (o.entry == "view") {       // the caller's view: pre-filled, so that pixels the reader never writes show (hashA != hashB)
+            img.recreate(o.vw, o.vh); Pixel fillp; gil::static_fill(fillp, g_fill); gil::fill_pixels(gil::view(img), fillp);
+        }
         with_device(o, [&](auto& dev) {
             if (o.entry == "image") gil::read_image(dev, img, settings_of<Tag>(o));
             else if (o.entry == "view") gil::read_view(dev, gil::view(img), settings_of<Tag>(o));
@@ -130,6 +134,7 @@ template <typename Tag, typename Pixel> static std::string do_pixels(Op const& o
 
 template <typename Reader> static std::string scan_rows(Reader& reader) {
     fnv f; long rows = 0;
+    if (reader._info._height > SCAN_ROW_LIMIT) return "err:big";
     auto it = reader.begin(); auto end = reader.end();
     for (; it != end; ++it) { gil::byte_t* row = *it; for (std::size_t i = 0; i < reader._scanline_length; ++i) f.add(row[i]); ++rows; }
     return "ok " + std::to_string(reader._info._width) + " " + std::to_string(reader._info._height) + " " + std::to_string(reader._scanline_length) + " " + std::to_string(rows) + " " + hex64(f.h);
@@ -212,38 +217,79 @@ static std::string run_op(Op const& o) {
 }
 
 // ---------------------------------------------------------------- fork per input
-static std::string g_scratch; static long g_timeout_ms = 3000;
+static std::string g_scratch; static long g_timeout_ms = 5000;
 
 static std::string slurp(std::string const& p) { std::ifstream f(p.c_str(), std::ios::binary); std::stringstream ss; ss << f.rdbuf(); return ss.str(); }
 
+// ---- symbolisation in the parent: the children print raw module offsets (symbolising a report inside every crashing
+// child costs ~0.2 s); one persistent `addr2line -f -C -i` resolves them, cached per offset.
+struct Frame { std::string fn, file; };
+struct Symbolizer {
+    FILE* to = nullptr; FILE* from = nullptr; pid_t pid = -1; std::map<std::string, std::vector<Frame>> cache;
+    bool start() {
+        if (to) return true;
+        char exe[4096]; ssize_t n = readlink("/proc/self/exe", exe, sizeof exe - 1); if (n <= 0) return false; exe[n] = 0;
+        int a[2], b[2]; if (pipe(a) || pipe(b)) return false;
+        pid = fork();
+        if (pid == 0) { dup2(a[0], 0); dup2(b[1], 1); close(a[1]); close(b[0]); execlp("addr2line", "addr2line", "-f", "-C", "-i", "-e", exe, (char*)nullptr); _exit(127); }
+        close(a[0]); close(b[1]); to = fdopen(a[1], "w"); from = fdopen(b[0], "r"); return to && from;
+    }
+    std::vector<Frame> const& lookup(std::string const& off) {
+        auto it = cache.find(off); if (it != cache.end()) return it->second;
+        std::vector<Frame> fr;
+        if (start()) {
+            std::fprintf(to, "%s\n0x0\n", off.c_str()); std::fflush(to);       // 0x0 is the end-of-answer sentinel ("??" / "??:0")
+            static char l1[1 << 20], l2[1 << 16];
+            while (std::fgets(l1, sizeof l1, from) && std::fgets(l2, sizeof l2, from)) {
+                std::string fn(l1), file(l2);
+                while (!fn.empty() && fn.back() == '\n') fn.pop_back();
+                while (!file.empty() && file.back() == '\n') file.pop_back();
+                if (fn == "??" && file.compare(0, 4, "??:0") == 0) break;
+                fr.push_back({fn, file});
+            }
+        }
+        return cache[off] = fr;
+    }
+};
+static Symbolizer g_sym;
+
+static std::string short_fn(std::string const& fn) {
+    std::string flat; int depth = 0;       // drop template arguments, stop at the argument list
+    for (char c : fn) { if (c == '<') ++depth; else if (c == '>') --depth; else if (depth == 0) { if (c == '(') break; flat += c; } }
+    std::size_t sp = flat.rfind(' '); if (sp != std::string::npos) flat = flat.substr(sp + 1);
+    std::size_t k = flat.rfind("::"); if (k != std::string::npos) flat = flat.substr(k + 2);
+    return flat;
+}
+
 // site of a report: "<file relative to boost/gil>:<function>" of the first stack frame inside
 // boost/gil/extension/io/, else inside boost/gil/io/, else inside boost/gil/
-static std::string frame_site(std::string const& rep, const char* needle) {
-    std::size_t pos = 0;
-    while ((pos = rep.find(needle, pos)) != std::string::npos) {
-        std::size_t ls = rep.rfind('\n', pos); ls = (ls == std::string::npos) ? 0 : ls + 1;
-        std::size_t le = rep.find('\n', pos); if (le == std::string::npos) le = rep.size();
-        std::string line = rep.substr(ls, le - ls);
-        std::size_t in = line.find(" in ");
-        if (line.find("    #") == 0 && in != std::string::npos) {
-            std::size_t g = rep.find("boost/gil/", ls);
-            std::string file = rep.substr(g + 10, rep.find_first_of(": \n", g) - g - 10);
-            std::string fn = line.substr(in + 4);
-            std::string flat; int depth = 0;       // drop template arguments, stop at the argument list
-            for (char c : fn) { if (c == '<') ++depth; else if (c == '>') --depth; else if (depth == 0) { if (c == '(') break; flat += c; } }
-            std::size_t sp = flat.rfind(' '); if (sp != std::string::npos) flat = flat.substr(sp + 1);
-            std::size_t k = flat.rfind("::"); if (k != std::string::npos) flat = flat.substr(k + 2);
-            return file + ":" + flat;
-        }
-        pos = le;
-    }
-    return "";
-}
 static std::string gil_site(std::string const& rep) {
-    std::string s = frame_site(rep, "boost/gil/extension/io/");
-    if (s.empty()) s = frame_site(rep, "boost/gil/io/");
-    if (s.empty()) s = frame_site(rep, "boost/gil/");
-    return s.empty() ? "?" : s;
+    std::vector<Frame> frames;
+    std::size_t pos = 0; int idx = 0;
+    while ((pos = rep.find("\n    #", pos)) != std::string::npos) {
+        std::size_t le = rep.find('\n', pos + 1); if (le == std::string::npos) le = rep.size();
+        std::string line = rep.substr(pos + 1, le - pos - 1);
+        std::size_t plus = line.rfind("+0x"), close = line.rfind(')');
+        if (plus != std::string::npos && close != std::string::npos && close > plus && line.find("/lib/") == std::string::npos && line.find(".so") == std::string::npos) {
+            unsigned long long off = std::strtoull(line.substr(plus + 1, close - plus - 1).c_str(), nullptr, 16);
+            if (idx > 0 && off > 0) off -= 1;                                  // return address -> the call instruction
+            char b[32]; std::snprintf(b, sizeof b, "0x%llx", off);
+            for (auto const& f : g_sym.lookup(b)) frames.push_back(f);
+        }
+        ++idx; pos = le;
+        if (idx > 40) break;
+    }
+    const char* needles[] = {"boost/gil/extension/io/", "boost/gil/io/", "boost/gil/"};
+    for (const char* nd : needles)
+        for (auto const& f : frames) {
+            std::size_t g = f.file.find(nd);
+            if (g != std::string::npos) {
+                std::size_t g0 = f.file.find("boost/gil/");
+                std::string file = f.file.substr(g0 + 10); file = file.substr(0, file.find(':'));
+                return file + ":" + short_fn(f.fn);
+            }
+        }
+    return "?";
 }
 
 static std::string classify_report(std::string const& rep, int status) {
